@@ -2,7 +2,7 @@
     Theorems only: statement, [exact], [Print Assumptions] (statements restated verbatim from the
     Inv_*.v files where they are proved).  See DESIGN.md section 5 for how each renders the property. *)
 From CB Require Import ProofLib Spec MonitorSound Results.
-From CB Require Import Inv_merge.
+From CB Require Import Inv_merge Passive Bcast_merge_combine.
 
 Theorem C08_merge_order p :
   nsinks p = 1 -> resub p = false -> no_nest p = false -> c14 p = false -> late_ok p = true ->
@@ -35,3 +35,70 @@ Theorem C08_merge_safe p :
   forall c : cfg (merge_op n), reach p g_std c -> viols (ms c) = [] /\ dead c = false.
 Proof. exact (@merge_safe p). Qed.
 Print Assumptions C08_merge_safe.
+
+(** ** what a sink Pull / Terminate DOES (passive continuation, Passive.v): it reaches exactly the members
+    that have greeted and not completed, once each, in index order *)
+
+(** a sink that may pull whenever it likes ([one_pull p = false]) *)
+Theorem C08_merge_pull_broadcast p n :
+  nsinks p = 1 -> resub p = false -> no_nest p = false -> c14 p = false -> late_ok p = true ->
+  one_pull p = false ->
+  1 <= n ->
+  forall c : cfg (merge_op n), reach p g_std c -> stack c = [] -> sk (ms c) 0 = SLive ->
+  exists fuel,
+    let c' := drain p fuel (step p c (MIn (IUp 0 UP))) in
+    stack c' = [] /\
+    exists evs, trace c' = trace c ++ evs /\
+      calls_of evs = map (fun j => CUp j UP)
+                         (filter (fun j => match us (ms c) j with ULive => true | _ => false end)
+                                 (seq 0 n)) /\
+      reach p g_std c'.
+Proof. exact (@merge_pull_broadcast p n). Qed.
+Print Assumptions C08_merge_pull_broadcast.
+
+(** any sink policy: the resulting configuration is conformant if the Pull itself was *)
+Theorem C08_merge_pull_broadcast_partial p n :
+  nsinks p = 1 -> resub p = false -> no_nest p = false -> c14 p = false -> late_ok p = true ->
+  1 <= n ->
+  forall c : cfg (merge_op n), reach p g_std c -> stack c = [] -> sk (ms c) 0 = SLive ->
+  exists fuel,
+    let c' := drain p fuel (step p c (MIn (IUp 0 UP))) in
+    stack c' = [] /\
+    exists evs, trace c' = trace c ++ evs /\
+      calls_of evs = map (fun j => CUp j UP)
+                         (filter (fun j => match us (ms c) j with ULive => true | _ => false end)
+                                 (seq 0 n)) /\
+      (enabled p g_std c (MIn (IUp 0 UP)) = true -> reach p g_std c').
+Proof. exact (@merge_pull_broadcast_partial p n). Qed.
+Print Assumptions C08_merge_pull_broadcast_partial.
+
+Theorem C08_merge_term_broadcast p n :
+  nsinks p = 1 -> resub p = false -> no_nest p = false -> c14 p = false -> late_ok p = true ->
+  1 <= n ->
+  forall c : cfg (merge_op n), reach p g_std c -> stack c = [] -> sk (ms c) 0 = SLive ->
+  exists fuel,
+    let c' := drain p fuel (step p c (MIn (IUp 0 UT))) in
+    stack c' = [] /\
+    exists evs, trace c' = trace c ++ evs /\
+      calls_of evs = map (fun j => CUp j UT)
+                         (filter (fun j => match us (ms c) j with ULive => true | _ => false end)
+                                 (seq 0 n)) /\
+      reach p g_std c'.
+Proof. exact (@merge_term_broadcast p n). Qed.
+Print Assumptions C08_merge_term_broadcast.
+
+Theorem C08_merge_error_broadcast p n e :
+  nsinks p = 1 -> resub p = false -> no_nest p = false -> c14 p = false -> late_ok p = true ->
+  1 <= n ->
+  forall c : cfg (merge_op n), reach p g_std c -> stack c = [] -> sk (ms c) 0 = SLive ->
+  exists fuel,
+    let c' := drain p fuel (step p c (MIn (IUp 0 (UE e)))) in
+    stack c' = [] /\
+    exists evs, trace c' = trace c ++ evs /\
+      calls_of evs = map (fun j => CUp j (UE e))
+                         (filter (fun j => match us (ms c) j with ULive => true | _ => false end)
+                                 (seq 0 n)) /\
+      reach p g_std c'.
+Proof. exact (@merge_error_broadcast p n e). Qed.
+Print Assumptions C08_merge_error_broadcast.
+
